@@ -400,6 +400,11 @@ def rule_k3(ctx, rule_id: str = "C12-K3") -> None:
             for st_ in own_nodes(rb.node):
                 if isinstance(st_, ast.Assign) and any(st_.value is r_ for r_ in runs):
                     bound |= {t.id for t in st_.targets if isinstance(t, ast.Name)}
+            # plain copies of the bound name (`rows = result`) are the same object
+            for _ in range(3):
+                for st_ in own_nodes(rb.node):
+                    if isinstance(st_, ast.Assign) and isinstance(st_.value, ast.Name) and st_.value.id in bound:
+                        bound |= {t.id for t in st_.targets if isinstance(t, ast.Name)}
             okr = isinstance(stored_rows, ast.Name) and stored_rows.id in bound
             ctx.instance(rule_id, "entry stores result=%s; the pipeline result is bound to %s" % (unparse(stored_rows)[:40], sorted(bound)), rb.loc(w), ok=okr)
             if not okr:
